@@ -267,7 +267,7 @@ const TZS: [&str; 10] = ["UTC", "America/New_York", "Europe/Dublin", "Australia/
 
 pub fn run(rep: &mut Report) {
     let mut rng = rep.cfg.rng("c19");
-    let n = rep.cfg.budget(120_000, 12_000_000);
+    let n = rep.cfg.budget(120_000, 1_800_000);
     let fresh = FsTzdbProvider::default();
     let mut evals = 0u64;
     for _ in 0..n {
